@@ -9,8 +9,8 @@ scratch directory of canary files; decorators of fgFileMgr / fgNetAccessor and t
 open, fetch and offer, which must equal the specification's ordered log; verdict, number of entity-reference starts and
 delivered text must equal the specification's.
 
-Sizes (quick): Resources 384 configurations x 80 document shapes = 30 720 parses; EntityExpansion 8 112 (definitions, document,
-limit) cases x 3 sites x 2 scanners = 48 672 parses.
+Sizes (quick): Resources 384 configurations x 80 document shapes = 30 720 parses; EntityExpansion 16 224 (definitions, document,
+limit, which entities are external) cases x sites (content only when an external entity is reached) x 2 scanners = 73 472 parses.
 
 As coded and modelled so (allowed by the property): the resolver gets the system id AS WRITTEN plus the base URI; the base of an
 entity is that of its DECLARATION; external parameter entities are fetched whenever the subset naming them is processed; schema
@@ -28,6 +28,8 @@ Mutants (mutants/C19/*.diff) and what catches them in the quick tier:
   expansion_count_dropped_internal_dg  DGXMLScanner '++fEntityExpansionCount' -> no increment (internal entities)          -> no limit error / too many starts
   entity_base_from_referrer            DTDScanner 'decl.setBaseURI(...)' -> 0                                               -> offer with wrong base, wrong file opened
   resolver_source_ignored_subset       createReader(sysId,..) builds the default although the resolver gave a source        -> 'open file' after 'answer src'
+  seeded/C19-a1  external branch of IG scanEntityRef resets the counter on every expansion   -> limit not reported / too many starts (external e3)
+  seeded/C19-a2  scanEntityDef takes the base from the current reader (null inside an internal PE) -> gi.xml offered with empty base, opened in the wrong directory
 """
 import json
 import os
